@@ -165,8 +165,8 @@ func (c *serverConn) connect(header *parser.PacketHeader, decode parser.Decode) 
 		return
 	}
 
-	c.sockets.set(socket)
-	c.nsps.set(nsp)
+	// The socket was registered with this connection by doConnect, before the CONNECT packet was sent.
+	// It must not be registered again here: it may have left the namespace in the meantime.
 
 	// The connection may have been closed while the middlewares were running.
 	// onClose didn't know about this socket back then, so close it now.
